@@ -388,7 +388,14 @@ def size(t) -> int:
 
 # ------------------------------------------------------------------------------------------------
 # exact evaluation of sympy objects produced by the real code
-def sympy_ev(e, env, salt: int = 0, funcs=None) -> Fraction:
+class TV(Fraction):
+    """a value that remembers the largest intermediate magnitude met while it was computed (see compare.close)"""
+    __slots__ = ("inter",)
+
+
+def sympy_ev(e, env, salt: int = 0, funcs=None, track=None) -> Fraction:
+    """exact value of a sympy expression at a rational point.  `track`, when a list, receives in track[0] the largest
+    magnitude of any intermediate value (used to bound the effect of 15-digit float constants under cancellation)"""
     import sympy
     from sympy.core.function import AppliedUndef
 
@@ -402,6 +409,12 @@ def sympy_ev(e, env, salt: int = 0, funcs=None) -> Fraction:
         return e
 
     def go(e):
+        v = go0(e)
+        if track is not None and (not track or abs(v) > track[0]):
+            track[:] = [abs(v)]
+        return v
+
+    def go0(e):
         if e.is_Integer:
             return Fraction(int(e))
         if e.is_Rational:
@@ -476,7 +489,11 @@ def sympy_ev(e, env, salt: int = 0, funcs=None) -> Fraction:
             raise Undefined(str(e))
         raise Undefined(f"unsupported sympy node {type(e).__name__}")
 
-    return go(sympy.sympify(e))
+    if track is None:
+        track = []
+    out = TV(go(sympy.sympify(e)))
+    out.inter = track[0] if track else Fraction(0)
+    return out
 
 
 def sympy_fv(e) -> set:
